@@ -79,6 +79,11 @@ def generate(ctx, prop, mod):
         if dead:
             ctx.inconclusive("vacuity: action(s) %s never taken in the %s universe" % (dead, prop))
             return None
+        # the coverage report itself must be readable: the actions this universe cannot reach show up with count 0
+        if not UNREACHED[prop] <= set(r.coverage0):
+            ctx.inconclusive("vacuity guard: TLC's coverage report does not list %s as never taken (got %s)"
+                             % (sorted(UNREACHED[prop]), sorted(set(r.coverage0) & set(ACTIONS))))
+            return None
     # the Deny action (access rules are C12's) is checked on the model only
     d = ctx.tlc("HttpProxy_MC", cfg_text=cfg(prop, 1, 0, gen=False, deny=True), workers=1, coverage=ctx.thorough, timeout=120)
     if not ctx.need_tlc_ok(d, "HttpProxy deny universe"):
@@ -171,7 +176,7 @@ def run(ctx):
         "bodies {0, 1, 32 KiB+1, 1 MiB} x {Content-Length, chunked in seeded pieces} attached round-robin to requests and upstream answers",
         "scope: strip-then-prepend where strip leaves an empty or relative rest AND a prefix is prepended is left out (two readings); a strip prefix that ends inside an escape is not asked; hop-by-hop headers are net/http's; User-Agent suppression and added forwarding headers are not judged here (C08)",
     ]
-    run_prop(ctx, "C07", ctx.pick(16, 1),
+    run_prop(ctx, "C07", ctx.pick(8, 1),
              "one case per finished pipeline run TLC enumerated (quick: the slice selected by the seed; thorough: the full product); non-trivial = forwarded case with strip/prepend applying, escapes in the path, a host option or a target query",
              _c07_pred, _c07_corrupt, "path")
 
